@@ -27,6 +27,7 @@ EXC_CODES = ['ValueError', 'UnicodeError', 'UnicodeEncodeError', 'UnicodeDecodeE
              'OverflowError']
 NATIVE_ENC = {'utf-8': 'utf8', 'latin-1': 'latin1', 'ascii': 'ascii'}
 TABLE_ENCODINGS = ['cp1252', 'shift_jis', 'koi8-r', 'gbk', 'euc-kr', 'big5']
+WIDE_ENCODINGS = ['utf-16', 'utf-16-le', 'utf-16-be', 'utf-32']
 
 TRUSTED_COMMON = [
     'parameters of the model, logged from the real run and passed per case: str.encode("idna") of non-ASCII hosts, '
@@ -36,6 +37,10 @@ TRUSTED_COMMON = [
     'CPython str/int()/ipaddress.IPv4Address semantics are mirrored in lean/Wpull/Py/Str.lean and tied by their own '
     'differential streams (int, ipv4, strip, unidb: str.isspace and the decimal-digit table for all 0x110000 code points)',
     'Python 3.12 semantics of the interpreter that runs /repo',
+    'hypotheses of norm_idem/norm_reparse (lean/Proofs/C10Norm.lean ReparseParams, V6Params, HostPrintable), each monitored on every '
+    'case: IPv6Address(x).compressed matches [0-9a-f:.]+ and re-parses to itself; unquote(normalize_username(u)) = u and the same '
+    'for the password; non-UTF-8 codecs are character-wise, ASCII-transparent and emit no 0x20/0x2e/0x2f byte for a non-ASCII '
+    'character (cases with other codecs are skipped); idna output and host names hold no character <= 0x20',
 ]
 
 
@@ -276,7 +281,10 @@ def charwise(url, encoding, extra=''):
                 return None
             continue
         try:
-            tab.append((ch, eexc_value(ch.encode(encoding))))
+            bs = ch.encode(encoding)
+            if not bs or any(b in (0x20, 0x2e, 0x2f) for b in bs):
+                return None          # outside SegSafe / SpaceSafe: the theorems do not speak about this codec
+            tab.append((ch, eexc_value(bs)))
         except UnicodeError as e:
             tab.append((ch, eexc_value(e)))
     try:
@@ -302,7 +310,7 @@ def dedupe(pairs):
 
 
 class Case:
-    __slots__ = ('url', 'ds', 'encoding', 'kind', 'real', 'info', 'exc', 'errs', 'line', 'tags', 'skip')
+    __slots__ = ('url', 'ds', 'encoding', 'kind', 'real', 'info', 'exc', 'errs', 'line', 'tags', 'skip', 'hyp')
 
     def __init__(self, url, ds='http', encoding='utf-8', kind='gen'):
         self.url, self.ds, self.encoding, self.kind = url, ds, encoding, kind
@@ -323,7 +331,7 @@ def run_real(wu, case, op='parse'):
     """Run the real parse; fill case.real (canonical tokens), case.info, case.exc and the model request line."""
     clear_caches(wu)
     Log.idna, Log.ipv6, Log.unq = [], [], []
-    case.info, case.exc, case.errs = None, None, []
+    case.info, case.exc, case.errs, case.hyp = None, None, [], []
     try:
         with guard():
             try:
@@ -346,6 +354,8 @@ def run_real(wu, case, op='parse'):
         case.real = 'timeout'
     # model request
     encname = {'utf-8': 'utf8', 'iso8859-1': 'latin1', 'ascii': 'ascii'}.get(codecs.lookup(case.encoding).name, 'table')
+    if 'az09/?#%. '.encode(case.encoding) != b'az09/?#%. ':
+        encname = 'utf8'        # UTF-16/32 documents: the (repaired) code percent-encodes as UTF-8
     enct = []
     if encname == 'table':
         # the lower-cased scheme candidate can re-enter the text ('.' in scheme): its characters too
@@ -353,6 +363,7 @@ def run_real(wu, case, op='parse'):
         if enct is None:
             case.skip = True
             enct = []
+    case.hyp = monitor_params(case)
     pre = py_strip_prefix(case.url)
     lower = [(pre, [ord(c) for c in pre.lower()])] if not pre.isascii() else []
     idna = dedupe((k, eexc_value(v)) for k, v in Log.idna)
@@ -363,6 +374,46 @@ def run_real(wu, case, op='parse'):
         etable(lower), etable(idna), etable(v6), etable(unq), etable(enct))
     case.tags = tags_of(case)
     return case
+
+
+V6_FORM = re.compile(r'[0-9a-f:.]+\Z')
+
+
+def monitor_params(case):
+    """the hypotheses of norm_idem / norm_reparse (ReparseParams, V6Params, HostPrintable) on the logged calls"""
+    bad = []
+    real_v6 = _state['v6'][0]
+    for text, v in Log.ipv6:
+        if isinstance(v, str):
+            try:
+                again = real_v6(v).compressed
+            except Exception as e:
+                again = repr(e)
+            if not V6_FORM.match(v) or again != v:
+                bad.append('V6Params: IPv6Address(%r).compressed = %r, re-parsed %r' % (text, v, again))
+    for text, v in Log.idna:
+        if isinstance(v, (bytes, bytearray)) and any(b <= 0x1f for b in v):
+            bad.append('PrintParams: idna(%r) = %r holds a control character' % (text, bytes(v)))
+    pre = py_strip_prefix(case.url)
+    if all(ord(ch) > 0x1f for ch in pre) and any(ord(ch) <= 0x1f for ch in pre.lower()):
+        bad.append('PrintParams: %r.lower() holds a control character' % pre)
+    if case.ds and any(ord(ch) <= 0x1f for ch in case.ds):
+        bad.append('PrintParams: default_scheme %r holds a control character' % case.ds)
+    i = case.info
+    if i is not None and case.exc is None and getattr(i, 'scheme', None) in NET:
+        import urllib.parse
+        import wpull.url as wu
+        for name, norm in (('username', wu.normalize_username), ('password', wu.normalize_password)):
+            v = getattr(i, name)
+            try:
+                back = urllib.parse.unquote(norm(v), encoding='utf-8', errors='replace')
+            except Exception as e:
+                back = repr(e)
+            if back != v:
+                bad.append('unquote_%s: unquote(normalize(%r)) = %r' % (name[:4], v, back))
+        if any(ord(ch) <= 0x20 for ch in (i.hostname or '')):
+            bad.append('HostPrintable: host name %r' % i.hostname)
+    return bad
 
 
 def tags_of(case):
@@ -455,6 +506,8 @@ def oracle_norm(ctx, wu, case):
     except Exception:
         return                      # C11's business
     cj = case.as_json()
+    for h in getattr(case, 'hyp', []):
+        ctx.fail('hypothesis-violated', h.split(':')[0], cj, 'a parameter hypothesis of norm_idem/norm_reparse does not hold: ' + h)
     # the sentence: pure ASCII, no whitespace, no C0 control (DEL 0x7f is neither)
     bad = [c for c in n if ord(c) > 0x7f or ord(c) <= 0x20 or c.isspace()]
     if bad:
@@ -487,6 +540,16 @@ def oracle_norm(ctx, wu, case):
     b = (j.scheme, j.hostname, j.port, j.path, j.query)
     if a != b:
         ctx.fail('reparse-differs', 'components', cj, '%r: %r != %r' % (n, a, b))
+    if case.encoding != 'utf-8':
+        # the stricter reading: normalise again with the SAME document encoding
+        try:
+            clear_caches(wu)
+            n3 = wu.URLInfo.parse(n, encoding=case.encoding).url
+        except Exception as e:
+            n3 = 'exc %s' % type(e).__name__
+        if n3 != n:
+            where = 'userinfo' if (i.userinfo and '@' in n and n3.partition('@')[2] == n.partition('@')[2]) else 'url'
+            ctx.fail('not-idempotent-same-encoding', where, cj, '%r under %s -> %r -> %r' % (case.url, case.encoding, n, n3))
     host = j.host or ''
     m = None if host.endswith(']') else re.search(r':([^:]*)$', host)
     explicit = None
@@ -524,7 +587,7 @@ def seed_urls(repo):
 # ------------------------------------------------------------------ generators
 ALNUM = 'abcdefghijklmnopqrstuvwxyz0123456789'
 SPECIAL = ':/?#@[]%.\\ +-_=&;~!$\'()*,"<>`{}|^'
-NONASCII = ['é', 'ß', 'İ', 'ı', 'Σ', 'ς', '文', '字', '\u200c', '\u200d', '。', '．', '｡', '１', '０', 'ｘ', '７', 'Ａ', '\xa0',
+NONASCII = ['Ġ', '\u2020', '\u202f', '\u2f2e', '\u2e2f', '\u3f23', 'é', 'ß', 'İ', 'ı', 'Σ', 'ς', '文', '字', '\u200c', '\u200d', '。', '．', '｡', '１', '０', 'ｘ', '７', 'Ａ', '\xa0',
             '\x85', '\u3000', '\u2028', '٣', '߁', '\U0001d7d8', '\U0001f600', '†', 'Ｆ', 'ﬁ', 'Ǆ', '\u0345', '\xad', 'K', 'Å']
 SURR = ['\ud800', '\udc80', '\udfff', '\udcff']
 
@@ -558,6 +621,27 @@ def gen_query(rng):
         v = rng.choice(['', '1', 'a b', 'a+b', '%20', '%3d', '%3D%26', 'é', 'x=y', '"q"', '<', '`', '/../', '?', rng.choice(NONASCII), 'a%2', '†'])
         parts.append(rng.choice(['%s=%s', '%s=%s', '%s%s', '%s=%s=']) % (k, v))
     return rng.choice('&&&;').join(parts)
+
+
+USERINFO_POOL = ['u', 'user', 'U%73er', 'a%3Ab', 'a%40b', 'é', '%e9', '%C3%a9', 'a b', 'a+b', '%2F', 'x%', '%ff', '',
+                 # a decoded literal '%': %25XX, %25, lone '%', nested
+                 '%2541', 'user%2541', '%25', '%25%25', 'a%25zz', '%252F', '%25%32%35', '%2525', '%', '%%', '%4', 'a%', '%2', '%25e9',
+                 # escapes that are not UTF-8 (latin-1 / shift_jis bytes), truncated and over-long sequences
+                 '%E9', '%e9%FC', '%FF%FE', '%C3', '%C3%28', '%E2%82', '%F0%9F%92', '%82%A0', '%8E%9A', '%95%5C', '%C0%AF', '%ED%A0%80',
+                 'a%80b', '%A0', '%00', '%0A', '%20', '%7F']
+
+
+def gen_userinfo(rng, password=False):
+    r = rng.random()
+    if r < 0.6:
+        v = rng.choice(USERINFO_POOL)
+    elif r < 0.8:
+        v = ''.join(rng.choice(['%25', '%', 'a', 'Z', '4', '1', 'e', '%e9', '%C3%A9', '%2f', 'é', '+', '%3a', '%40']) for _ in range(rng.randrange(1, 5)))
+    else:
+        v = ''.join('%%%02X' % rng.randrange(256) if rng.random() < 0.7 else rng.choice('ab1') for _ in range(rng.randrange(1, 4)))
+    if password and rng.random() < 0.3:
+        v = rng.choice(['p:w', 'p%3aw', 'p@w', 'P W', '%zz', ':']) + v
+    return v
 
 
 PORT_POOL = sorted(set(NET.values()))
@@ -614,9 +698,9 @@ class Spec:
         r = rng.random()
         self.user = self.pw = None
         if r < 0.25:
-            self.user = rng.choice(['u', 'user', 'U%73er', 'a%3Ab', 'a%40b', 'é', '%e9', '%C3%a9', 'a b', 'a+b', '%2F', 'x%', '%ff', ''])
+            self.user = gen_userinfo(rng)
             if rng.random() < 0.6:
-                self.pw = rng.choice(['p', 'p:w', 'p%3aw', 'p@w', '%2f', 'ü', '', 'P W', '%zz', '%41'])
+                self.pw = gen_userinfo(rng, password=True)
         r = rng.random()
         if r < 0.4:
             self.hostkind = 'name'
@@ -827,6 +911,8 @@ def pick_config(rng):
         encoding = rng.choice(['latin-1', 'ascii'])
     elif r < 0.18:
         encoding = rng.choice(TABLE_ENCODINGS)
+    elif r < 0.24:
+        encoding = rng.choice(WIDE_ENCODINGS)
     return ds, encoding
 
 
@@ -968,7 +1054,7 @@ def stream_strings(ctx, wu, n, rng):
                 ctx.fail('escape-not-upper', 'uppercase_percent_encoding', {'stream': 'upper', 'text': arg}, '%r -> %r' % (arg, real))
         elif kind == 'pct':
             real = wu.percent_encode(arg[1].decode('latin-1'), sets[arg[0]], 'latin-1')
-            if wu.percent_encode(real, sets[arg[0]], 'latin-1') != real and '%' not in sets[arg[0]]:
+            if wu.percent_encode(real, sets[arg[0]], 'latin-1') != real and 37 not in sets[arg[0]]:
                 ctx.fail('not-idempotent', 'percent_encode', {'stream': 'pct', 'set': arg[0], 'bytes': arg[1]}, '%r' % real)
         else:
             real = arg.strip()
